@@ -84,6 +84,8 @@ func main() {
 		writeJSON(*out, Kernels(*seed, *n, *driver, *keep))
 	case "rlp":
 		writeJSON(*out, RlpMode(*seed, *n, *driver, *keep))
+	case "bancor":
+		writeJSON(*out, BancorMode(*seed, *n, *tier, *driver, *keep))
 	case "campaign":
 		res := Campaign(*profile, *seed, *n, *tier, *driver, *keep, *par)
 		writeJSON(*out, res)
